@@ -29,7 +29,7 @@ MIX: Dict[str, List[str]] = {
     "C11": ["margin", "margin", "cross", "random", "micro_c07"],
 }
 
-QUICK_CASES = {"C05": 35, "C04": 90, "C06": 90}
+QUICK_CASES = {"C05": 35, "C04": 60, "C06": 90}
 
 
 def plan(prop: str, tier: str) -> Plan:
@@ -139,7 +139,7 @@ def run_shard(ctx: Context, res: ShardResult) -> None:
                 continue
             sc = gen.gen_scenario(r, cls)
             one(prop, sc, res, other)
-        if prop == "C04" and ctx.tier == "thorough":
+        if prop == "C04":
             # exhaustive sweep of the finite micro space: every weak ordering x order kind x side
             n = micro.c04_space_size()
             for idx in range(ctx.shard, n, ctx.nshards):
